@@ -61,6 +61,14 @@ func RaceWorker() {
 						os.Exit(2)
 					}
 				}
+				// first a traffic step (the shared Lua runtime computes the Ingress annotations), then the finalising
+				rr := ro
+				rr.route, rr.Weight = true, fmt.Sprintf("%d%%", 10+10*g)
+				w.workerBody(rr, cl)()
+				w.mu.Lock()
+				delete(w.doneAt, ro.Thread)
+				w.mu.Unlock()
+				atomic.AddInt32(&w.finished, -1)
 				w.workerBody(ro, cl)()
 				w.mu.Lock()
 				_, done := w.doneAt[ro.Thread]
